@@ -233,18 +233,21 @@ func (r *runner) newStore(shard int, wt bool) {
 	}
 }
 
-// the cache of the real store: ListUpstream for every key of the case, cross-checked with List
+// the cache of the real store: everything List returns, each under the key(s) where Get finds that very pointer
+// (independent of ListUpstream and of every other helper the store itself uses to enumerate)
 func (r *runner) loc() []locEntry {
 	out := []locEntry{}
-	for _, k := range r.keys {
-		for _, o := range r.store.ListUpstream(k) {
-			out = append(out, locEntry{Key: rig.Hex(k), Cond: fromObj(o)})
+	for _, o := range r.store.List(labels.Everything()) {
+		found := false
+		for _, k := range r.keys {
+			if p, err := r.store.Get(k, o.Name); err == nil && p == o {
+				out = append(out, locEntry{Key: rig.Hex(k), Cond: fromObj(o)})
+				found = true
+			}
 		}
-	}
-	if all := r.store.List(labels.Everything()); len(all) != len(out) {
-		// a key the case does not know: show it under a marker key so that the difference is reported
-		for i := len(out); i < len(all); i++ {
-			out = append(out, locEntry{Key: rig.Hex("?unknown-key"), Cond: CondJ{Name: rig.Hex("?")}})
+		if !found {
+			// a key the case does not know: show it under a marker key so that the difference is reported
+			out = append(out, locEntry{Key: rig.Hex("?unknown-key"), Cond: fromObj(o)})
 		}
 	}
 	sortLoc(out)
@@ -486,6 +489,7 @@ type window struct {
 	outcome  outcome
 	done     chan outcome
 	fail     *failure
+	apiAfter []CondJ // the API right after an intruder that ran inside
 }
 
 // runImpl drives the real store through the case.
@@ -518,8 +522,13 @@ func runImpl(cs *Case) (*implRun, *failure) {
 		stopped := r.stopped
 		m0 := r.mark()
 		var win *window
+		isDel := op.Op == "delete" || op.Op == "deleteUpstream"
 		if op.Intr != nil && (op.Op == "flush" || op.Op == "stop") {
 			win = r.arm(op.Intr)
+		}
+		if op.Intr != nil && isDel {
+			// the mirror image: a Flush/Stop is started while this deletion is inside its critical section
+			win = r.armDelete(op.Intr)
 		}
 		o := exec(r.thunk(op))
 		r.sim.setHook(nil)
@@ -554,6 +563,30 @@ func runImpl(cs *Case) (*implRun, *failure) {
 		ob := obsJ{Op: op, Loc: before, Stopped: stopped, Points: pts(r.snaps(m0.calls, m3.calls)), IPoints: pts(nil), Points3: pts(nil), IRes: "ok", Api: api, Res: res}
 		st := stepJ{Res: res, Loc: r.loc(), Api: api, NextRv: m3.nextRv, Calls: m3.calls, Stopped: r.stopped, IRes: "ok"}
 		switch {
+		case win != nil && win.inside && isDel:
+			// the flush did not wait for the deletion (it ran before the deletion's first API call): as observed,
+			// a whole flush followed by the deletion
+			out.LockObs = append(out.LockObs, lockObs{intr.Op.Op, r.wt, true})
+			out.Windows++
+			iop := intr.Op
+			iop.Intr = nil
+			r.sim.mu.Lock()
+			ilog := append([]callRec{}, r.sim.log[win.m1.log:win.m2.log]...)
+			r.sim.mu.Unlock()
+			for i := range ilog {
+				ilog[i].Intruder = false
+			}
+			iop.Ord = orderHint(iop, before, ilog)
+			ires := classify(win.outcome.err)
+			ip := pts(r.snaps(win.m1.calls, win.m2.calls))
+			istopped := stopped || (iop.Op == "stop" && ires == "ok")
+			out.Ops = append(out.Ops, iop)
+			out.Obs = append(out.Obs, obsJ{Op: iop, Loc: before, Stopped: stopped, Points: ip, IPoints: pts(nil), Points3: pts(nil), IRes: "ok", Api: win.apiAfter, Res: ires})
+			out.Steps = append(out.Steps, stepJ{Res: ires, Loc: before, Api: win.apiAfter, NextRv: win.m2.nextRv, Calls: win.m2.calls, Stopped: istopped, IRes: "ok", Seg1: ip, Seg2: pts(nil), Seg3: pts(nil)})
+			ob.Stopped = istopped
+			ob.Points = pts(r.snaps(win.m2.calls, m3.calls))
+		case win != nil && !win.opened && isDel:
+			out.Unopened++ // the deletion made no API call: no flush was started
 		case win != nil && win.inside:
 			out.LockObs = append(out.LockObs, lockObs{intr.Op.Op, r.wt, true})
 			out.Windows++
